@@ -25,6 +25,10 @@ which the symbolic walker (engine/sympath) has already substituted every local:
                         adding passes (the negation of a `continue` guard, an enclosing `if`) are
                         handed back in `g` for the caller to judge; without `g` only unguarded
                         accumulators are folded.
+  project_records(e, …) what a parametrised helper leaves behind once it is spliced in is evaluated on literals:
+                        `(lambda b: b.f)(x)` -> `x.f`, `attrgetter("f")(x)` / `getattr(x, "f")` -> `x.f`, strings built
+                        from literals (f-string, +, %, .format) and `{…}[literal]` table look-ups are folded, so
+                        four look-alike aggregates merged into one closure `total(pick, field)` read like the originals.
   agg_term(e, side)     normal form of an aggregate over battery groups:
                            ('sum_g', op, parts)   Σ_g op(part, part)      part = ('leaf', (kind, field))
                                                                                 | ('sum_i', (kind, field))
@@ -43,7 +47,7 @@ from typing import Any, Callable
 
 from ..engine.normalize import ANCHOR_NAMES, _bind, _helper_target, _simple_helper, _suite_lists, inline_helpers
 from ..engine.report import AnalysisError
-from ..engine.resolver import FuncInfo, FuncNode, Program
+from ..engine.resolver import FuncInfo, FuncNode, Program, algebraic_view
 from ..engine.sympath import Path, SymUnsupported, _Subst, follower, sym_block, sym_paths
 from ..engine.util import canon, u
 
@@ -98,9 +102,11 @@ def prepared(prog: Program, fn: FuncInfo, fold_lists: bool = True) -> FuncNode:
     node = inline_straightline(prog, fn, inline_helpers(prog, fn))
     if hoist_block_helpers(prog, fn, node):
         node = inline_straightline(prog, fn, inline_helpers(prog, fn, node=node))
+    algebraic_view(node)      # a reduction handed to a helper as a parameter (`reduce=math.fsum`) is a call only now
     dewalrus_comprehensions(node)
-    if fold_lists:
-        fold_list_loops(node)
+    # fold_lists=False: only the top-level loops are left to the caller; a list filled by a loop standing *inside* one
+    # (a list-building closure the engine spliced into the body of the loop over the groups) is read here
+    fold_list_loops(node, nested_only=not fold_lists)
     fold_sum_loops(node)
     return node
 
@@ -290,9 +296,10 @@ def fold_sum_loops(node: FuncNode) -> None:
     ast.fix_missing_locations(node)
 
 
-def fold_list_loops(node: FuncNode) -> None:
+def fold_list_loops(node: FuncNode, nested_only: bool = False) -> None:
     """`a = []; for T in IT: …; a.append(X)` is read as `a = [X for T in IT if <the pass appends>]`: the
     comprehension is bound to `a` right after the loop (the loop itself stays, it may do other things).
+    `nested_only`: the loops of the function's own top-level suite are left alone.
 
     Done for a list that is initialised empty earlier in the same suite, is only touched by one
     `.append(X)` per pass of the loop, and when the passes that append are exactly those satisfying a
@@ -301,6 +308,8 @@ def fold_list_loops(node: FuncNode) -> None:
     exact only for rules that do not look at such operands.  Works in place (analysis-only copy)."""
     _appends_only(node)
     for suite in reversed(list(_suite_lists(node))):      # innermost suites first
+        if nested_only and suite is node.body:
+            continue
         i = 0
         while i < len(suite):
             st = suite[i]
@@ -514,7 +523,7 @@ def elem_of(e: ast.AST, roots: list[ast.AST] | None = None, root_symbol: str | N
             if len(a.args) != 1 or a.posonlyargs or a.kwonlyargs or a.vararg or a.kwarg or a.defaults:
                 return None
             return subst(f.body, {a.args[0].arg: src})
-        if isinstance(f, (ast.Name, ast.Attribute)):
+        if isinstance(f, (ast.Name, ast.Attribute, ast.Call)):     # a named function, or one built by a call (attrgetter(…))
             return ast.Call(func=copy.deepcopy(f), args=[src], keywords=[])
         return None
     if isinstance(e, (ast.GeneratorExp, ast.ListComp)):
@@ -561,13 +570,115 @@ def _replace(root: ast.AST, old: ast.AST, new: ast.AST) -> ast.AST:
     return T().visit(root)
 
 
+def _const_str(e: ast.AST) -> str | None:
+    return e.value if isinstance(e, ast.Constant) and isinstance(e.value, str) else None
+
+
+def _beta(lam: ast.Lambda, call: ast.Call) -> ast.AST | None:
+    """`(lambda a, b: body)(x, y)` -> body[a := x, b := y] for a lambda of plain positional parameters applied to as
+    many plain positional arguments; None when a binder inside the body (a nested lambda, a comprehension variable, a
+    walrus) could capture a name of an argument."""
+    a = lam.args
+    if a.kwonlyargs or a.vararg or a.kwarg or a.defaults or a.kw_defaults:
+        return None
+    params = [x.arg for x in a.posonlyargs + a.args]
+    if call.keywords or len(call.args) != len(params) or any(isinstance(x, ast.Starred) for x in call.args):
+        return None
+    inner: set[str] = set()
+    for n in ast.walk(lam.body):
+        if isinstance(n, ast.Lambda):
+            inner |= {x.arg for x in n.args.posonlyargs + n.args.args + n.args.kwonlyargs}
+        elif isinstance(n, ast.comprehension):
+            inner |= {t.id for t in ast.walk(n.target) if isinstance(t, ast.Name)}
+        elif isinstance(n, ast.NamedExpr):
+            inner |= {t.id for t in ast.walk(n.target) if isinstance(t, ast.Name)}
+    free = {n.id for x in call.args for n in ast.walk(x) if isinstance(n, ast.Name)}
+    if inner & (free | set(params)):
+        return None
+    return ast.copy_location(subst(lam.body, dict(zip(params, call.args))), call)
+
+
 def project_records(e: ast.AST, records: dict[str, list[str]]) -> ast.AST:
     """`Rec(a=x, b=y).a` -> `x` for the record constructors in `records` (class name -> field order):
     reading a field of a freshly built record is reading the argument it was built from; and
-    `getattr(x, "name")` with a literal name -> `x.name`."""
+    `getattr(x, "name")` with a literal name -> `x.name`.
+
+    What a parametrised helper leaves behind once its parameters are substituted is evaluated first (pure, on
+    literals only): an immediately applied lambda `(lambda b: b.f)(x)` -> `x.f`; `operator.attrgetter("f")(x)` -> `x.f`;
+    a string built from literals (f-string, `+`, `%`, `.format`) -> the literal; `{"k": v, …}["k"]` -> `v`."""
     class T(ast.NodeTransformer):
+        depth = 0
+
+        def visit_JoinedStr(self, node: ast.JoinedStr) -> ast.AST:  # noqa: N802
+            self.generic_visit(node)
+            parts: list[str] = []
+            for v in node.values:
+                if isinstance(v, ast.FormattedValue):
+                    t = _const_str(v.value)
+                    if t is None or v.conversion not in (-1, 115) or v.format_spec is not None:
+                        return node
+                    parts.append(t)
+                else:
+                    t = _const_str(v)
+                    if t is None:
+                        return node
+                    parts.append(t)
+            return ast.copy_location(ast.Constant("".join(parts)), node)
+
+        def visit_BinOp(self, node: ast.BinOp) -> ast.AST:  # noqa: N802
+            self.generic_visit(node)
+            left = _const_str(node.left)
+            if left is not None and isinstance(node.op, ast.Add) and _const_str(node.right) is not None:
+                return ast.copy_location(ast.Constant(left + _const_str(node.right)), node)  # type: ignore[operator]
+            if left is not None and isinstance(node.op, ast.Mod):
+                r = node.right
+                vals = [_const_str(x) for x in r.elts] if isinstance(r, ast.Tuple) else [_const_str(r)]
+                if all(v is not None for v in vals):
+                    try:
+                        return ast.copy_location(ast.Constant(left % tuple(vals)), node)
+                    except (TypeError, ValueError):
+                        return node
+            return node
+
+        def visit_Subscript(self, node: ast.Subscript) -> ast.AST:  # noqa: N802
+            self.generic_visit(node)
+            d, k = node.value, node.slice
+            if isinstance(d, ast.Dict) and isinstance(k, ast.Constant) and isinstance(node.ctx, ast.Load) \
+                    and all(isinstance(x, ast.Constant) for x in d.keys):
+                hits = [v for x, v in zip(d.keys, d.values) if type(x.value) is type(k.value) and x.value == k.value]  # type: ignore[union-attr]
+                if hits:
+                    return hits[-1]
+            return node
+
         def visit_Call(self, node: ast.Call) -> ast.AST:  # noqa: N802
             self.generic_visit(node)
+            f = node.func
+            if isinstance(f, ast.Lambda) and self.depth < 8:
+                new = _beta(f, node)
+                if new is not None:
+                    self.depth += 1
+                    try:
+                        return self.visit(new)
+                    finally:
+                        self.depth -= 1
+            if isinstance(f, ast.Call) and u(f.func) in ("operator.attrgetter", "attrgetter") and len(f.args) == 1 \
+                    and not f.keywords and not node.keywords and len(node.args) == 1 and not isinstance(node.args[0], ast.Starred):
+                path = _const_str(f.args[0])
+                if path is not None and all(x.isidentifier() for x in path.split(".")):
+                    out: ast.AST = node.args[0]
+                    for x in path.split("."):
+                        out = self.visit_Attribute(ast.copy_location(ast.Attribute(value=out, attr=x, ctx=ast.Load()), node),
+                                                   visited=True)
+                    return out
+            if isinstance(f, ast.Attribute) and f.attr == "format" and _const_str(f.value) is not None \
+                    and not any(isinstance(x, ast.Starred) for x in node.args) and all(k.arg is not None for k in node.keywords):
+                pos = [_const_str(x) for x in node.args]
+                kws = {k.arg: _const_str(k.value) for k in node.keywords}
+                if all(v is not None for v in pos) and all(v is not None for v in kws.values()):
+                    try:
+                        return ast.copy_location(ast.Constant(_const_str(f.value).format(*pos, **kws)), node)  # type: ignore[union-attr,arg-type]
+                    except (IndexError, KeyError, ValueError, AttributeError):
+                        return node
             a = simple_call(node, ("getattr",), 2)      # getattr(x, "name") is x.name
             if a is not None and isinstance(a[1], ast.Constant) and isinstance(a[1].value, str) and a[1].value.isidentifier():
                 return self.visit_Attribute(ast.copy_location(ast.Attribute(value=a[0], attr=a[1].value, ctx=ast.Load()), node),
@@ -796,6 +907,7 @@ def _inner_sum(a: ast.AST, side: Side) -> str | None:
 
 
 def agg_term(e: ast.AST, side: Side) -> Any:
+    e = side.norm(e)              # a parametrised helper bound to a local lambda and applied on the spot
     mm = _minmax(e)
     if mm is not None:                                   # op(Σ_g battery leaf, Σ_g Σ_i inverter leaf)
         op, args = mm
